@@ -2,6 +2,7 @@ package namer
 
 import (
 	"go/token"
+	"go/types"
 	"slices"
 	"strconv"
 	"strings"
@@ -65,6 +66,11 @@ func (tracker *defaultImportTracker) add(path string) {
 }
 
 func (tracker *defaultImportTracker) bind(localName string, path string) bool {
+	// a package imported as string, error, len ... would shadow the predeclared identifier in the whole file
+	if types.Universe.Lookup(localName) != nil {
+		return false
+	}
+
 	if tracker.checkStd {
 		if p, ok := std.nameToPath[localName]; ok && p != path {
 			return false
